@@ -69,6 +69,10 @@ class World:
         self.trace = []
         self.tr_context = ""
         self.active = False  # bindings only exist once setup() has run
+        self.always = {}     # property name -> setter emits even when the value is unchanged (driver knob)
+        self.handler_depth = 0
+        self.max_handler_depth = 0
+        self.notify_fired = 0
 
     def add_object(self, name, cls):
         self.cls[name] = cls
@@ -92,9 +96,12 @@ class World:
     def set_source(self, obj, prop, value, traced=True):
         if traced:
             self.trace.append(("set", obj, prop, value))
+        old = self.props[obj][prop]
         self.props[obj][prop] = value
         if self.active:
             self.recompute()
+            if old != value or self.always.get(prop):
+                self.fire_notify(obj, prop, value)
 
     # ---------------------------------------------------------------- evaluator
 
@@ -196,9 +203,28 @@ class World:
 
     def write_prop(self, obj, prop, v):
         self.trace.append(("set", obj, prop, v))
+        old = self.props[obj][prop]
         self.props[obj][prop] = v
         if self.active:
             self.recompute()
+            if old != v or self.always.get(prop):
+                self.fire_notify(obj, prop, v)
+
+    def fire_notify(self, obj, prop, value):
+        """a handler attached to the notify signal of a source property runs synchronously inside the setter"""
+        cls = self.cls.get(obj)
+        p = sc.find_prop(cls, prop) if cls in sc.BY_NAME else None
+        if not p or not p["notify"]:
+            return
+        key = "%s(%s)" % (p["notify"][0], ",".join(p["notify"][1]))
+        h = self.handlers.get((obj, key))
+        if h is None:
+            return
+        self.notify_fired += 1
+        params = {}
+        for (pname, _t), v in zip(h["params"], [value]):
+            params[pname] = v
+        self.run_handler(h, obj, params)
 
     def call_slot(self, obj, name, args):
         self.trace.append(("call", obj, name, tuple(args)))
@@ -387,17 +413,26 @@ class World:
     def emit(self, obj, sigkey, args):
         """-> expected effect trace of emitting the signal (handler channels and all)"""
         h = self.handlers.get((obj, sigkey))
-        self.trace = []
         if h is not None:
             params = {}
             for (pname, _pty), v in zip(h["params"], args):
                 params[pname] = v
             self.run_handler(h, obj, params)
-        return list(self.trace)
+        return self.trace
 
     def run_handler(self, h, this, params):
         env = {"this": this, "locals": [dict(params)]}
         body = h["body"]
+        self.handler_depth += 1
+        if self.handler_depth > 64:
+            raise Undefined("handler recursion")
+        self.max_handler_depth = max(self.max_handler_depth, self.handler_depth)
+        try:
+            self._run_handler_body(body, env)
+        finally:
+            self.handler_depth -= 1
+
+    def _run_handler_body(self, body, env):
         try:
             if body["kind"] == "expr_stmt":
                 self.exec_stmt(body["stmt"], env)
